@@ -72,7 +72,15 @@ def main():
         try:
             with warnings.catch_warnings():
                 warnings.simplefilter("ignore")
-                mod.run_case(desc, ctx)
+                dup = os.environ.get("VERIF_DUPWARN")
+                if dup == "1" or (dup is None and getattr(mod, "DUPLICATE_WARNING_SWITCH_SHARE", 5) and seed % getattr(mod, "DUPLICATE_WARNING_SWITCH_SHARE", 5) == 1):
+                    # global switch config.display_duplicate_attribute_warning = True for this case (restored afterwards)
+                    from . import build as _build
+                    ctx.cls("config:display_duplicate_attribute_warning=True")
+                    with _build.config(display_duplicate_attribute_warning=True):
+                        mod.run_case(desc, ctx)
+                else:
+                    mod.run_case(desc, ctx)
         except CaseAbort:
             status = "aborted"
         except CaseTimeout:
